@@ -34,7 +34,7 @@ func runC03(w *World) *Result {
 		}
 		return false
 	})
-	r.Rule("R-C03-driver", "slice/string nodes: the driver evaluates each operand once, used, in source order, then calls the converter", 5)
+	r.Rule("R-C03-driver", "slice/string nodes: the driver evaluates each operand once, used, in source order, then calls the converter", 2)
 	ProtoRule(w, r, "R-C03-driver", func(n string) bool {
 		switch n {
 		case "SliceAssignment", "SliceEvaluation", "StringSubscript", "SliceInstantiation", "Copy", "Len":
